@@ -6,7 +6,7 @@ pub mod path;
 
 use std::collections::HashMap;
 use url_build_parse::{build_url, parse_url, UrlComponents};
-use url_search_params::{build_url_search_params, encode_uri_component, parse_url_search_params};
+use url_search_params::{build_url_search_params, encode_uri_component};
 use url_search_params::decode_uri_component;
 
 pub struct URL;
@@ -17,7 +17,24 @@ impl URL {
     }
 
     pub fn percent_decode(component: &str) -> String {
-        decode_uri_component(component)
+        // one pass from left to right: the percent sign that "%25" stands for is never taken
+        // as the start of another escape ("%2526" is the text "%26", not "&")
+        let mut result = String::with_capacity(component.len());
+        let mut rest = component;
+        while let Some(position) = rest.find('%') {
+            result.push_str(&rest[..position]);
+            let tail = &rest[position..];
+            let boxed_escape = tail.get(..3);
+            if boxed_escape.is_some() && decode_uri_component(boxed_escape.unwrap()) != boxed_escape.unwrap() {
+                result.push_str(&decode_uri_component(boxed_escape.unwrap()));
+                rest = &tail[3..];
+            } else {
+                result.push('%');
+                rest = &tail[1..];
+            }
+        }
+        result.push_str(rest);
+        result
     }
 
     pub fn build_query(params: HashMap<String, String>) -> String {
@@ -25,7 +42,20 @@ impl URL {
     }
 
     pub fn parse_query(component: &str) -> HashMap<String, String> {
-        parse_url_search_params(component)
+        let mut params : HashMap<String, String> = HashMap::new();
+        if component.trim().is_empty() {
+            return params
+        }
+
+        for param in component.split("&") {
+            let mut key_value = param.split("=");
+            let key = key_value.next().unwrap_or("");
+            let value = key_value.next().unwrap_or("");
+            if !key.is_empty() {
+                params.insert(URL::percent_decode(key), URL::percent_decode(value));
+            }
+        }
+        params
     }
 
     pub fn build(components: UrlComponents) -> Result<String, String> {
